@@ -547,6 +547,8 @@ def apply_config(manager, cfg):
     c.configHydrodynamics.relativeTol = float(cfg["hydroRelTol"])
     c.configHydrodynamics.absoluteTol = float(cfg["hydroAbsTol"])
     c.configThermodynamics.phaseTracerTol = float(cfg["phaseTracerTol"])
+    c.configEOM.wallThicknessBounds = [float(x) for x in cfg.get("wallThicknessBounds", [0.1, 100.0])]
+    c.configEOM.wallOffsetBounds = [float(x) for x in cfg.get("wallOffsetBounds", [-10.0, 10.0])]
     return cfg
 
 
